@@ -310,14 +310,33 @@ def locate(func):
     return m
 
 
-def path_between(func, a, b):
-    """is there a CFG path on which node a is evaluated and node b is evaluated later? (a, b: nodes located in the CFG)"""
+def path_between(func, a, b, avoid=()):
+    """is there a CFG path on which node a is evaluated and node b is evaluated later, without any node of `avoid` evaluated in between?
+    (a, b, avoid: nodes located in the CFG)"""
     loc = locate(func)
     if a['i'] not in loc or b['i'] not in loc:
         return False
     (ba, pa), (bb, pb) = loc[a['i']], loc[b['i']]
-    if ba == bb and (pa, a['i']) < (pb, b['i']):
+    av = {}
+    for n in avoid:
+        if n['i'] in loc:
+            bn, pn = loc[n['i']]
+            av.setdefault(bn, []).append((pn, n['i']))
+
+    def scan(blk, start):
+        """walking block blk from position key `start` (exclusive): 'hit' if b comes before any avoided node, 'stop' if an avoided node
+        comes first, 'through' if neither occurs"""
+        cands = [(k, 'stop') for k in av.get(blk, []) if k > start]
+        if blk == bb and (pb, b['i']) > start:
+            cands.append(((pb, b['i']), 'hit'))
+        if not cands:
+            return 'through'
+        return min(cands)[1]
+    r = scan(ba, (pa, a['i']))
+    if r == 'hit':
         return True
+    if r == 'stop':
+        return False
     cfg = func.cfg
     seen, stack = set(), [s for s in cfg.succ[ba] if s is not None]
     while stack:
@@ -325,7 +344,10 @@ def path_between(func, a, b):
         if x in seen:
             continue
         seen.add(x)
-        if x == bb:
+        r = scan(x, (-1, -1))
+        if r == 'hit':
             return True
+        if r == 'stop':
+            continue
         stack.extend(s for s in cfg.succ[x] if s is not None)
     return False
